@@ -120,7 +120,7 @@ def vmf(x, g, kmin, kmax):
     r = np.einsum('...kn,...nd->...kd', g, x)
     nrm = np.linalg.norm(r, axis=-1)
     mean = r / np.maximum(nrm, TINY)[..., None]
-    rbar = nrm / g.sum(-1)
+    rbar = np.minimum(nrm / g.sum(-1), 1.0)      # the mean resultant length cannot exceed one (rounding may)
     with np.errstate(divide='ignore', invalid='ignore'):
         kappa = (rbar * D - rbar ** 3) / (1 - rbar ** 2)
     return mean, np.clip(kappa, kmin, kmax), rbar
